@@ -19,7 +19,7 @@ ENTRY(h_c10){
     Tree tree(cfg, gP.pos, a0, a1 != 0);
     gReg.scan(tree);
     gK = KFlags(); gK.geom = true; gK.periodic = true;
-    gTop = TopState(); gTop.k = k;
+    gTop = TopState(); gTop.k = k; for(int d = 0; d < DIM; ++d) gTop.boxw[d] = cfg.getBoxWidths()[d];
     Algo algo(cfg, TbfDefaultLastLevelPeriodic);
     TopAlgo top(cfg, k);
     algo.execute(tree, TbfAlgorithmUtils::TbfBottomToTopStages);
